@@ -869,28 +869,48 @@ Proof.
   split; [exact A1|]. split; [exact B1|]. split; [exact B2|]. split; [exact Hn2|]. intro Hd. apply B3, A3, Hd.
 Qed.
 
-(* over every history: a blob that is the user's own is never in any deletion list, keeps its row, and keeps
-   its file *)
-Lemma history_never_own ops : forall d h, hashes_unique d -> In h (own_hashes d) ->
-  (forall dl, In dl (fst (run ops d)) -> ~ In h dl) /\ In h (own_hashes (snd (run ops d))) /\ (In h (disk d) -> In h (disk (snd (run ops d)))).
+Lemma remove_keeps_own hs d h : In h (own_hashes d) -> ~ In h hs ->
+  In h (own_hashes (remove_hashes hs d)) /\ (In h (disk d) -> In h (disk (remove_hashes hs d))).
 Proof.
-  induction ops as [|o r IH]; intros d h Hn Ho; [simpl; tauto|].
-  destruct o as [net limit|cl nl|b]; cbn [run].
+  intros Ho Hn. apply mem_false in Hn. split.
+  - apply own_hashes_In in Ho as [b [Hb [Hm E]]]. apply own_hashes_In. exists b. subst h.
+    split; [|auto]. unfold remove_hashes. cbn [blobs]. apply filter_In. split; [exact Hb | rewrite Hn; reflexivity].
+  - intro Hd. unfold remove_hashes. cbn [disk]. apply filter_In. split; [exact Hd | rewrite Hn; reflexivity].
+Qed.
+
+Lemma remove_unique hs d : hashes_unique d -> hashes_unique (remove_hashes hs d).
+Proof. unfold hashes_unique, remove_hashes. cbn [blobs]. apply NoDup_map_filter. Qed.
+
+(* over every history: a blob that is the user's own (and that the user does not remove himself) is never in any
+   deletion list, keeps its row, and keeps its file *)
+Lemma history_never_own ops : forall d h, hashes_unique d -> In h (own_hashes d) -> ~ In h (user_deleted ops) ->
+  (forall dl, In dl (fst (run ops d)) -> ~ In h dl) /\ In h (own_hashes (snd (run ops d))) /\
+  (In h (disk d) -> In h (disk (snd (run ops d)))).
+Proof.
+  induction ops as [|o r IH]; intros d h Hn Ho Hu; [simpl; tauto|].
+  destruct o as [net limit|cl nl|b|hs|]; cbn [run]; cbn [user_deleted] in Hu.
   - pose proof (pass_keeps_own net limit d h Hn Ho) as [A1 [A2 A3]].
     pose proof (clean_pass_unique net limit d Hn) as Hn1.
     destruct (clean_pass net limit d) as [dl d1]. cbn [fst snd] in *.
-    specialize (IH d1 h Hn1 A2). destruct (run r d1) as [tr d2]. cbn [fst snd] in *.
+    specialize (IH d1 h Hn1 A2 Hu). destruct (run r d1) as [tr d2]. cbn [fst snd] in *.
     destruct IH as [I1 [I2 I3]]. split; [|auto].
     intros dl' [<-|Hin]; [exact A1 | apply I1; exact Hin].
   - pose proof (clean_keeps_own cl nl d h Hn Ho) as [A1 [A2 [A3 [A4 A5]]]].
     destruct (clean cl nl d) as [[dl1 dl2] d1]. cbn [fst snd] in *.
-    specialize (IH d1 h A4 A3). destruct (run r d1) as [tr d2]. cbn [fst snd] in *.
+    specialize (IH d1 h A4 A3 Hu). destruct (run r d1) as [tr d2]. cbn [fst snd] in *.
     destruct IH as [I1 [I2 I3]]. split; [|auto].
     intros dl' [<-|[<-|Hin]]; [exact A1 | exact A2 | apply I1; exact Hin].
   - pose proof (add_keeps_own b d h Ho) as [A1 A2].
-    specialize (IH (add_blob b d) h (add_unique b d Hn) A1).
+    specialize (IH (add_blob b d) h (add_unique b d Hn) A1 Hu).
     destruct (run r (add_blob b d)) as [tr d2]. cbn [fst snd] in *.
     destruct IH as [I1 [I2 I3]]. auto.
+  - assert (Hh : ~ In h hs) by (intro X; apply Hu, in_or_app; left; exact X).
+    assert (Hr : ~ In h (user_deleted r)) by (intro X; apply Hu, in_or_app; right; exact X).
+    pose proof (remove_keeps_own hs d h Ho Hh) as [A1 A2].
+    specialize (IH (remove_hashes hs d) h (remove_unique hs d Hn) A1 Hr).
+    destruct (run r (remove_hashes hs d)) as [tr d2]. cbn [fst snd] in *.
+    destruct IH as [I1 [I2 I3]]. auto.
+  - apply IH; assumption.
 Qed.
 
 (* every hash in any deletion list of a history was, at that moment, a row that is not the user's own;
@@ -900,12 +920,14 @@ Lemma run_app ops1 : forall ops2 d,
   (fst (run ops1 d) ++ fst (run ops2 (snd (run ops1 d))), snd (run ops2 (snd (run ops1 d)))).
 Proof.
   induction ops1 as [|o r IH]; intros ops2 d; [simpl; apply surjective_pairing|].
-  destruct o as [net limit|cl nl|b]; cbn [run app].
+  destruct o as [net limit|cl nl|b|hs|]; cbn [run app].
   - destruct (clean_pass net limit d) as [dl d1]. rewrite IH.
     destruct (run r d1) as [tr d2]. reflexivity.
   - destruct (clean cl nl d) as [[dl1 dl2] d1]. rewrite IH.
     destruct (run r d1) as [tr d2]. reflexivity.
   - rewrite IH. destruct (run r (add_blob b d)) as [tr d2]. reflexivity.
+  - rewrite IH. destruct (run r (remove_hashes hs d)) as [tr d2]. reflexivity.
+  - apply IH.
 Qed.
 
 (* ------------------------------------------------------------------------------------------ *)
